@@ -3,6 +3,7 @@ import SluProofs.Lemmas.ReadersSort
 import SluProofs.Lemmas.ReadersCols
 import SluProofs.Lemmas.ReadersText
 import SluProofs.Lemmas.ReadersTriple
+import SluProofs.Lemmas.ReadValues
 /-
 C16 — Matrix file readers return exactly the matrix in the file.
 
@@ -11,6 +12,19 @@ on the very bytes given to `[sdcz]readhb / readrb / readMM / readtriple`).  All 
 every size and every input satisfying the stated hypotheses; each is followed by an `example`
 showing that the hypotheses are satisfiable.  `Trip α` is a coordinate entry `(row, col, val)` with
 an arbitrary value type (real, complex, single, double alike).
+
+The last section (`namespace Values`) is about the VALUE block of Harwell-Boeing / Rutherford-Boeing
+files: `Values.readValues` / `Values.readValuesCx` mirror `[sd]ReadValues` / `[cz]ReadValues` loop by
+loop (line loop, field loop, field cut, D -> E, pair toggle carried across lines) with the libc
+conversion `atof` as a parameter `conv`.  Proved for every `perline ≥ 1`, every width and every
+count: a printed block is read back field by field (`read_print_values`, `read_print_values_raw`,
+`read_print_values_no_D`), complex values are the pairs of consecutive fields whatever the parity of
+`perline` (`read_print_values_cx`, `pairUp_getElem`), the reader that clears the toggle at each line
+is wrong for `perline = 3` and right for even `perline` (`reset_per_line_differs`,
+`reset_per_line_even`), the result depends on the text only through the fields, each cut at its own
+end (`read_values_congr`, `field_isolated`), and `fgets` with the 100-byte buffer recovers the lines
+of the block (`fgets_lines_of_printed_block`).  ASSUMED, not proved: what `atof` returns; the only
+property of it used is that leading blanks are skipped (hypothesis `hconv`).
 -/
 namespace Slu.Readers
 
@@ -182,5 +196,145 @@ theorem read_print_triple (n : Nat) (ts : List (Trip Nat)) (h : ∀ t ∈ ts, t.
   readTriple_printTriple n ts h
 
 example : ∀ t ∈ [(⟨2, 1, 7⟩ : Trip Nat), ⟨0, 0, 12⟩, ⟨1, 2, 0⟩, ⟨2, 1, 5⟩], t.row < 3 ∧ t.col < 3 := by decide
+
+/-! ### The value block: fields, `D` exponents, complex pairs across lines
+(`[sd]ReadValues` dreadhb.c:162-183, `[cz]ReadValues` zreadhb.c:162-193; same text in `*readrb.c`)
+
+`Values.readValues` / `Values.readValuesCx` follow the C loops statement by statement; `conv` is
+`atof` (libc, trusted).  A field text is a `List Char`, a text line what `fgets` delivers. -/
+namespace Values
+
+/-- **C16 (value block, real).** For EVERY number `perline ≥ 1` of fields per line, every field
+width, every list of field texts that fit their field, and every announced count `n` not exceeding the
+number of fields present: printing the fields right-justified, `perline` to a line (the last line
+possibly shorter), and reading the block back with `dReadValues` returns the first `n` fields, each
+converted after its Fortran exponent letter `D`/`d` was replaced by `E` — no hypothesis on `conv`
+other than what `atof` does with the padding: leading blanks are skipped. -/
+theorem read_print_values (perline persize : Nat) (conv : List Char → α) (n : Nat) (fields : List (List Char))
+    (hp : 0 < perline) (hfit : ∀ f ∈ fields, f.length ≤ persize) (hn : n ≤ fields.length)
+    (hconv : ∀ (k : Nat) (s : List Char), conv (List.replicate k ' ' ++ s) = conv s) :
+    readValues perline persize conv n (printFields perline persize fields) =
+      (fields.map fun f => conv (dToE f)).take n := by
+  rw [readValues_printFields perline persize conv n fields hp hfit hn]
+  congr 1
+  apply List.map_congr_left
+  intro f _
+  rw [dToE_pad, hconv]
+
+/-- the same without any hypothesis on `conv`: the text handed to `atof` is exactly the padded field
+with `D`/`d` replaced -/
+theorem read_print_values_raw (perline persize : Nat) (conv : List Char → α) (n : Nat) (fields : List (List Char))
+    (hp : 0 < perline) (hfit : ∀ f ∈ fields, f.length ≤ persize) (hn : n ≤ fields.length) :
+    readValues perline persize conv n (printFields perline persize fields) =
+      (fields.map fun f => conv (dToE (pad persize f))).take n :=
+  readValues_printFields perline persize conv n fields hp hfit hn
+
+/-- fields written with `E` (or without exponent letter) reach `atof` unchanged -/
+theorem read_print_values_no_D (perline persize : Nat) (conv : List Char → α) (n : Nat) (fields : List (List Char))
+    (hp : 0 < perline) (hfit : ∀ f ∈ fields, f.length ≤ persize) (hn : n ≤ fields.length)
+    (hconv : ∀ (k : Nat) (s : List Char), conv (List.replicate k ' ' ++ s) = conv s)
+    (hD : ∀ f ∈ fields, ∀ c ∈ f, c ≠ 'D' ∧ c ≠ 'd') :
+    readValues perline persize conv n (printFields perline persize fields) = (fields.map conv).take n := by
+  rw [read_print_values perline persize conv n fields hp hfit hn hconv]
+  congr 1
+  apply List.map_congr_left
+  intro f hf
+  rw [dToE_id f (hD f hf)]
+
+/-- **C16 (value block, complex).** For EVERY `perline ≥ 1`, odd or even, the complex reader returns
+the first `n` pairs (real, imaginary) of consecutive fields: fields `2i` and `2i+1` form value `i`
+wherever the line breaks fall, in particular when the two halves sit on different lines. -/
+theorem read_print_values_cx (perline persize : Nat) (conv : List Char → α) (n : Nat) (fields : List (List Char))
+    (hp : 0 < perline) (hfit : ∀ f ∈ fields, f.length ≤ persize) (hn : 2 * n ≤ fields.length)
+    (hconv : ∀ (k : Nat) (s : List Char), conv (List.replicate k ' ' ++ s) = conv s) :
+    readValuesCx perline persize conv n (printFields perline persize fields) =
+      (pairUp (fields.map fun f => conv (dToE f))).take n := by
+  rw [readValuesCx_printFields perline persize conv n fields hp hfit hn]
+  congr 2
+  apply List.map_congr_left
+  intro f _
+  rw [dToE_pad, hconv]
+
+/-- `pairUp` is what it should be: value `i` is (field `2i`, field `2i+1`) -/
+theorem pairUp_getElem (l : List α) (i : Nat) (h : 2 * i + 1 < l.length) :
+    (pairUp l)[i]? = some (l[2 * i]'(by omega), l[2 * i + 1]) := by
+  induction l using pairs_induction generalizing i with
+  | h0 => simp at h
+  | h1 a => simp at h
+  | h2 a b l ih =>
+    cases i with
+    | zero => simp [pairUp_cons_cons]
+    | succ i =>
+      rw [pairUp_cons_cons, List.getElem?_cons_succ, ih i (by simp at h; omega)]
+      simp [show 2 * (i + 1) = 2 * i + 1 + 1 by omega]
+
+/-- **C16 (the toggle must survive the line break — negative result).** The variant that clears the
+toggle at every line returns something else as soon as `perline` is odd: with 3 fields per line the
+real part `3` of the second number of `1 2 3 / 4` is forgotten and `4` is taken for a real part,
+paired with whatever lies behind the end of the line. -/
+theorem reset_per_line_differs :
+    readValuesCx 3 2 id 2 [" 1 2 3\n".toList, " 4\n".toList] = [(" 1".toList, " 2".toList), (" 3".toList, " 4".toList)] ∧
+    readValuesCxResetPerLine 3 2 id 2 [" 1 2 3\n".toList, " 4\n".toList] = [(" 1".toList, " 2".toList), (" 4".toList, "\n".toList)] ∧
+    readValuesCxResetPerLine 3 2 id 2 [" 1 2 3\n".toList, " 4\n".toList] ≠ readValuesCx 3 2 id 2 [" 1 2 3\n".toList, " 4\n".toList] := by
+  decide
+
+/-- ... and is indistinguishable from the right reader for every even `perline` (why files written
+with the usual 2 or 4 values per line do not show the defect) -/
+theorem reset_per_line_even (perline persize : Nat) (conv : List Char → α) (n : Nat) (lines : List (List Char))
+    (k : Nat) (hk : perline = 2 * k) :
+    readValuesCxResetPerLine perline persize conv n lines = readValuesCx perline persize conv n lines := by
+  rw [readValuesCxResetPerLine, readValuesCx, scanLinesReset_eq perline persize conv n k hk]
+
+/-- **C16 (field isolation).** The readers depend on the text only through the `perline` fields
+`buf[j*persize .. (j+1)*persize)` of each line: two blocks whose lines agree field by field are read
+alike, whatever follows the last field of a line ... -/
+theorem read_values_congr (perline persize : Nat) (conv : List Char → α) (n : Nat) (lines lines' : List (List Char))
+    (hlen : lines.length = lines'.length)
+    (h : ∀ (i : Nat) (h1 : i < lines.length) (h2 : i < lines'.length) (j : Nat), j < perline →
+      field lines[i] j persize = field lines'[i] j persize) :
+    readValues perline persize conv n lines = readValues perline persize conv n lines' ∧
+    readValuesCx perline persize conv n lines = readValuesCx perline persize conv n lines' := by
+  rw [readValues_eq_gfold, readValues_eq_gfold, readValuesCx_eq_gfold, readValuesCx_eq_gfold,
+    flatMap_lineFieldsAll_congr perline persize lines lines' hlen h]
+  exact ⟨rfl, rfl⟩
+
+/-- ... and field `j` of a line is cut at its own end: it does not depend on the text of field `j+1`
+or of anything behind it (what a dropped terminator `buf[(j+1)*persize] = 0` breaks). -/
+theorem field_isolated (pre f post post' : List Char) (j persize : Nat) (hpre : pre.length = j * persize)
+    (hf : f.length = persize) :
+    field (pre ++ f ++ post) j persize = f ∧ field (pre ++ f ++ post) j persize = field (pre ++ f ++ post') j persize := by
+  rw [field_mid pre f post j persize hpre hf, field_mid pre f post' j persize hpre hf]
+  exact ⟨rfl, rfl⟩
+
+/-- **C16 (line splitting).** The block as a character stream — the concatenation of its lines — is
+cut by `fgets(buf, 100, fp)` into exactly those lines whenever a full line fits the reader's
+100-byte buffer (`perline * persize + 1 < 100`) and no field contains a newline; so the read-back
+theorems above apply to `fgetsLines stream`, which is how the correspondence check runs the model. -/
+theorem fgets_lines_of_printed_block (perline persize : Nat) (fields : List (List Char))
+    (hfit : ∀ f ∈ fields, f.length ≤ persize) (hnl : ∀ f ∈ fields, ∀ c ∈ f, c ≠ '\n')
+    (hbuf : perline * persize + 1 < 100) :
+    fgetsLines (printFields perline persize fields).flatten = printFields perline persize fields :=
+  fgetsLines_printFields perline persize fields hfit hnl hbuf
+
+-- hypotheses are satisfiable: `atoi` skips leading blanks as `atof` does
+example : ∀ (k : Nat) (s : List Char), atoi (List.replicate k ' ' ++ s) = atoi s := by
+  intro k s; simp [atoi, scanInt_spaces]
+-- a real block of 5 values, 3 per line, width 6: two lines, the last one short; a D exponent
+example : printFields 3 6 ["1.5".toList, "-2D1".toList, "3".toList, "4e2".toList, "5".toList] =
+    ["   1.5  -2D1     3\n".toList, "   4e2     5\n".toList] := by
+  rw [printFields_of_ne_nil _ _ _ (by decide) (by decide), printFields_of_ne_nil _ _ _ (by decide) (by decide)]
+  simp only [List.take, List.drop, printFields_nil]
+  decide
+example : ∀ f ∈ ["1.5".toList, "-2D1".toList, "3".toList, "4e2".toList, "5".toList], f.length ≤ 6 := by decide
+example : readValues 3 6 id 5 ["   1.5  -2D1     3\n".toList, "   4e2     5\n".toList] =
+    ["   1.5".toList, "  -2E1".toList, "     3".toList, "   4e2".toList, "     5".toList] := by decide
+example : readValues 3 6 atoi 4 ["   1.5  -2D1     3\n".toList, "   4e2     5\n".toList] = [1, -2, 3, 4] := by decide
+-- a complex block of 5 values = 10 fields, 3 per line: pairs 2, 3 and 5 straddle line ends
+example : readValuesCx 3 3 atoi 5 [" 10 11 20\n".toList, " 21 30 31\n".toList, " 40 41 50\n".toList, " 51\n".toList] =
+    [(10, 11), (20, 21), (30, 31), (40, 41), (50, 51)] := by decide
+example : readValuesCxResetPerLine 3 3 atoi 5 [" 10 11 20\n".toList, " 21 30 31\n".toList, " 40 41 50\n".toList, " 51\n".toList] =
+    [(10, 11), (21, 30), (40, 41), (51, 0)] := by decide
+
+end Values
 
 end Slu.Readers
